@@ -122,9 +122,19 @@ func (x *c04) r7() {
 				}
 			}
 		}
-		if !lvOK || !hasFact(g.FactsAt(g.Idx[call]), func(f Fact) bool {
-			return cmpMatch(f, token.LSS, func(v ssa.Value) bool { return stripConv(v) == ssa.Value(levelPhi) }, func(v ssa.Value) bool { k, ok := constUint64(v); return ok && k == x.levels })
-		}) {
+		// in induction form: level = T, for pageLevels iterations (whichever way the
+		// loop is written: a header test level < pageLevels, `for level := range n`)
+		tripsOK := false
+		zl := &Polyizer{}
+		if lf, ok := g.loopFormAt(zl, call.Block()); ok {
+			first, step, okA := lf.affineInT(levelPhi)
+			f0, c0 := first.isConst()
+			s1, c1 := step.isConst()
+			tk, ct := lf.Trips.isConst()
+			tripsOK = okA && c0 && f0 == 0 && c1 && s1 == 1 && lf.TripsOK && ct && uint64(tk) == x.levels
+			lf.Done()
+		}
+		if !lvOK || !tripsOK {
 			msg = "the walk does not visit levels 0..pageLevels-1 in order"
 		}
 		// entry address passed to walkFn: tableAddr + (((virt >> shifts[level]) & ((1<<bits[level])-1)) << PointerShift)
